@@ -159,3 +159,16 @@ Definition text_clean (lm : str) (p : parsed) (w : wparams) : bool :=
   | Ok d, Some vts => doc_clean lm d && negb (has CR (doc_text lm d (value_texts p w)))
                       && negb (existsb (fun r => match nr_value r with Some v => has_xmltree v | None => false end) (p_nodes p))
   | _, _ => false end.
+
+(* ---------- the round trip of C05, executed in the model: write every requested namespace as text, then let the parser model read
+   those texts (and the untouched base document) with its own XML reader ---------- *)
+Require Import M_ParseText.
+Fixpoint write_all (lm now : str) (p : parsed) (targets : list (str * str)) : res (list (str * str)) :=
+  match targets with
+  | [] => Ok []
+  | (uri, fname) :: r =>
+      rbind (write_text lm p {| wp_uri := uri; wp_inc := true; wp_pubdate := lm; wp_now := now; wp_newver := None; wp_fname := fname |}) (fun s =>
+      rbind (write_all lm now p r) (fun rest => Ok ((fname, s) :: rest)))
+  end.
+Definition model_roundtrip (E : ext) (lm now : str) (p : parsed) (base : list (str * str)) (targets : list (str * str)) : res parsed :=
+  rbind (write_all lm now p targets) (fun files => parse_text_files E [] (base ++ files)).
